@@ -60,6 +60,7 @@ def available_encoders_all():
                 continue
             if hasattr(m, "NAME") and hasattr(m, "encode"):
                 out[m.NAME] = m
+                out.setdefault(f[:-3], m)      # also addressable by its file name (e.g. water_day)
     return out
 
 
@@ -121,9 +122,27 @@ class Collector:
         self.cur = None                               # current day dict
         self.scen_id = None
         self.enc_errors = collections.Counter()
+        self.inner = {}
+        self.day_enc = None
+        for m in encoders.values():
+            if getattr(m, "HANDLER", None) == "water_day" and hasattr(m, "encode_day"):
+                self.day_enc = m
 
     def observe(self, name, before, res, after):
         L = self.encoders.get(name)
+        if self.day_enc is not None:
+            if name in self.day_enc.INNER:
+                self.inner.setdefault(name, []).append((before, res))
+            if name == self.day_enc.NAME:
+                inner, self.inner = self.inner, {}
+                try:
+                    r = self.day_enc.encode_day(self.reg, before, res, after, inner)
+                    if r is not None:
+                        t = self.cur["t"] if self.cur else -1
+                        self.pairs["water_day"].append((self.scen_id, t, r[0], r[1]))
+                except Exception as e:  # noqa: BLE001
+                    self.enc_errors[f"water_day:{type(e).__name__}:{str(e)[:80]}"] += 1
+                L = None
         if L is not None:
             try:
                 line, exp = L.encode(self.reg, before, res, after)
